@@ -24,7 +24,7 @@ pub fn run_slices(ctx: &Ctx, runs: Vec<SliceRun>, required: &[&str], rule: &str,
     for r in runs {
         let m = AgentModel { slice: r.slice.clone() };
         let depth = std::env::var("VERIF_DEPTH").ok().and_then(|d| d.parse::<usize>().ok()).unwrap_or(r.depth);
-        let lim = Limits { max_depth: depth, max_states: ctx.tier.pick(3_000_000, 40_000_000), budget_s: ctx.budget_s() / n_runs as f64 + ctx.elapsed() };
+        let lim = Limits { max_depth: depth, max_states: ctx.tier.pick(3_000_000, 12_000_000), budget_s: ctx.budget_s() / n_runs as f64 + ctx.elapsed() };
         let res = explore(&m, &lim, ctx.start);
         states += res.states;
         transitions += res.transitions;
